@@ -2,15 +2,10 @@
 I_job, the steps that do something to a job: dequeue, requeue, finish/destroy, sync_immediate, scheduling a new job.
 -/
 import DesyncModel.Inv.JobInv
+import DesyncModel.Tables.Sync
+import DesyncModel.Tables.TrySync
 namespace Desync
 open Gen
-
-/-- the invariant reads only `acts`, `jobs` and `qs` -/
-theorem JobInv.congr {X Y : State} (h : JobInv Y) (hA : X.acts = Y.acts) (hJ : X.jobs = Y.jobs) (hQ : X.qs = Y.qs) : JobInv X := by
-  refine JobInv.of_eq h ?_ ?_ ?_
-  · intro b; simp only [State.pcAt, hA]
-  · intro i; simp only [State.jobPQ, hJ]
-  · intro i; simp only [State.qjobs, hQ]
 
 theorem goto_congr {X Y : State} (a : Nat) (pc : Pc) (hA : X.acts = Y.acts) :
     (X.goto a pc).acts = (Y.goto a pc).acts := by
@@ -29,7 +24,7 @@ theorem JobInv.dequeue_take {s : State} {a q j : Nat} {pc' : Pc} (h : JobInv s) 
   have hqj : s.qjobs q = some (j :: rest) := by rw [qjobs_of hv, hjobs]
   have hjq := h.queued q _ j hqj (by simp)
   obtain ⟨b, hb, hbph, hbq⟩ := jobPQ_some hjq
-  refine JobInv.take h ?_ ?_ hidle hqj ?_ ?_ hnew
+  refine JobInv.take h ?_ ?_ hidle hqj ?_ ?_ ?_ hnew
   · simpa using hlt
   · intro c; simp
   · intro i
@@ -37,12 +32,13 @@ theorem JobInv.dequeue_take {s : State} {a q j : Nat} {pc' : Pc} (h : JobInv s) 
     simp [hbq]
   · intro i
     rw [qjobs_setJobPh, qjobs_setQ_of hv]
+  · intro i; simp
 
 theorem JobInv.dequeue_none {s : State} {a q : Nat} {pc' : Pc} (h : JobInv s)
     (hd : (s.dequeue q a).2 = none) (hrun : pc'.runningQ = (s.pcAt a).runningQ) :
     JobInv ((s.dequeue q a).1.goto a pc') := by
   rw [Desync.dequeue_none hd]
-  exact JobInv.frame h (fun _ => rfl) (fun _ => rfl) (fun _ => rfl) hrun
+  exact JobInv.frame h (fun _ => rfl) (fun _ => rfl) (fun _ => rfl) (fun _ hi => Or.inl hi) hrun
 
 theorem j_rjDequeue {s s' : State} {a : Nat} {o : Obs} (hw : WfInv s) (h : JobInv s) (act : Act) (ha : s.acts[a]? = some act) (hc : act.child = none)
     (q : Nat) (k : Pc) (hpc : act.pc = .rjDequeue q k) (hs : stepAct s a = some (s', o)) : JobInv s' := by
@@ -94,12 +90,17 @@ theorem j_dqDequeue {s s' : State} {a : Nat} {o : Obs} (h : JobInv s) (act : Act
     exact JobInv.dequeue_none h hd (by rw [hidle]; rfl)
 
 
-theorem JobInv.requeue_front {s : State} {a q j : Nat} {pc' : Pc} (h : JobInv s) (hlt : a < s.acts.length)
+theorem JobInv.requeue_front {s : State} {a q j : Nat} {pc' : Pc} (hh : HolderInv s) (hw : WfInv s) (h : JobInv s) (hlt : a < s.acts.length)
     (hold : (s.pcAt a).runningQ = some (j, q)) (hnew : pc'.runningQ = none) :
     JobInv (((s.pushFront q j).setJobPh j .queued).goto a pc') := by
   have hjq := h.run1 a j q hold
   obtain ⟨b, hb, hbph, hbq⟩ := jobPQ_some hjq
-  refine JobInv.requeue h ?_ ?_ hold ?_ ?_ hnew
+  -- the queue exists: `a` owns its run right
+  have hho := (hh.iff a q).mp (holds_of_runningQ (hw a) hold)
+  have hqlt : q < s.qs.length := by
+    have := (List.getElem?_eq_some_iff.mp hho).1; rw [hh.len] at this; exact this
+  have hv : s.qs[q]? = some s.qs[q] := List.getElem?_eq_getElem hqlt
+  refine JobInv.requeue (l0 := s.qs[q].jobs) h (heldExcl_of hh hw h) ?_ ?_ hold (qjobs_of hv) ?_ ?_ ?_ hnew
   · simpa using hlt
   · intro c; simp
   · intro i
@@ -108,37 +109,41 @@ theorem JobInv.requeue_front {s : State} {a q j : Nat} {pc' : Pc} (h : JobInv s)
     rw [jobPQ_setJobPh_of hb']
     simp [hbq]
   · intro i
-    rw [qjobs_setJobPh, qjobs_pushFront]
+    rw [qjobs_setJobPh, qjobs_pushFront, qjobs_of hv]; rfl
+  · intro i; simp
 
-theorem j_pdRequeue {s s' : State} {a : Nat} {o : Obs} (h : JobInv s) (act : Act) (ha : s.acts[a]? = some act) (hc : act.child = none)
+theorem j_pdRequeue {s s' : State} {a : Nat} {o : Obs} (hh : HolderInv s) (hw : WfInv s) (h : JobInv s) (act : Act) (ha : s.acts[a]? = some act) (hc : act.child = none)
     (p q j : Nat) (hpc : act.pc = .pdRequeue p q j) (hs : stepAct s a = some (s', o)) : JobInv s' := by
   have hlt : a < s.acts.length := lt_of_getElem?_some ha
   have hpca := pcAt_of ha
   unfold stepAct at hs
   simp only [ha, hc, hpc, Option.isSome_none, Bool.false_eq_true, ↓reduceIte] at hs
   simp only [Option.some.injEq, Prod.mk.injEq] at hs; obtain ⟨rfl, _⟩ := hs
-  exact JobInv.requeue_front h hlt (by rw [hpca, hpc]; rfl) rfl
+  exact JobInv.requeue_front hh hw h hlt (by rw [hpca, hpc]; rfl) rfl
 
-theorem j_dqRequeue {s s' : State} {a : Nat} {o : Obs} (h : JobInv s) (act : Act) (ha : s.acts[a]? = some act) (hc : act.child = none)
+theorem j_dqRequeue {s s' : State} {a : Nat} {o : Obs} (hh : HolderInv s) (hw : WfInv s) (h : JobInv s) (act : Act) (ha : s.acts[a]? = some act) (hc : act.child = none)
     (f j l q : Nat) (hpc : act.pc = .dqRequeue f j l q) (hs : stepAct s a = some (s', o)) : JobInv s' := by
   have hlt : a < s.acts.length := lt_of_getElem?_some ha
   have hpca := pcAt_of ha
   unfold stepAct at hs
   simp only [ha, hc, hpc, Option.isSome_none, Bool.false_eq_true, ↓reduceIte] at hs
   simp only [Option.some.injEq, Prod.mk.injEq] at hs; obtain ⟨rfl, _⟩ := hs
-  exact JobInv.requeue_front h hlt (by rw [hpca, hpc]; rfl) rfl
+  exact JobInv.requeue_front hh hw h hlt (by rw [hpca, hpc]; rfl) rfl
 
 /-- the job that `a` runs is finished or destroyed by a `setJob` -/
 theorem JobInv.retire_setJob {s X : State} {a q j : Nat} {b v : Job} {pc' : Pc} (h : JobInv s) (hlt : a < X.acts.length)
     (hpc : ∀ c, X.pcAt c = s.pcAt c) (hX : ∀ i, X.jobPQ i = (s.setJob j v).jobPQ i) (hq : ∀ i, X.qjobs i = s.qjobs i)
-    (hold : (s.pcAt a).runningQ = some (j, q)) (hb : s.jobs[j]? = some b) (hvq : v.q = b.q) (hvph : v.ph = .done)
+    (hXo : ∀ i, X.jobOpen i = (s.setJob j v).jobOpen i)
+    (hold : (s.pcAt a).runningQ = some (j, q)) (hb : s.jobs[j]? = some b) (hvq : v.q = b.q) (hvph : v.ph = .done) (hve : v.ended = true)
     (hnew : pc'.runningQ = none) : JobInv (X.goto a pc') := by
   have hjq := h.run1 a j q hold
   rw [jobPQ_of hb] at hjq
   simp at hjq
-  refine JobInv.retire (ph := .done) h hlt hpc hold (by intro c; simp) (by simp) ?_ hq hnew
-  intro i
-  rw [hX, jobPQ_setJob_of hb, hvph, hvq, hjq.2]
+  refine JobInv.retire (ph := .done) h hlt hpc hold (by intro c; simp) (by simp) ?_ hq ?_ hnew
+  · intro i
+    rw [hX, jobPQ_setJob_of hb, hvph, hvq, hjq.2]
+  · intro i
+    rw [hXo, jobOpen_setJob_of hb, hve]; simp
 
 theorem ctxReady_running {k : Pc} {c : Ctx} (hw : (match c with | .caller q => k.plainFor q | _ => true) = true) : (ctxReady k c).runningQ = none := by
   cases c <;> simp_all [ctxReady, Pc.runningQ]
@@ -162,10 +167,10 @@ theorem j_jobDrop {s s' : State} {a : Nat} {o : Obs} (hw : WfInv s) (h : JobInv 
   · split at hs
     · simp at hs
     · simp only [Option.some.injEq, Prod.mk.injEq] at hs; obtain ⟨rfl, _⟩ := hs
-      have h1 := JobInv.retire_setJob (X := s.setJob j { jb with ph := .done }) (pc' := .jobDropNotify j c k) h (by simpa using hlt) (fun _ => rfl) (fun _ => rfl) (fun _ => rfl) hold hjb rfl rfl rfl
+      have h1 := JobInv.retire_setJob (X := s.setJob j { jb with ph := .done, ended := true }) (pc' := .jobDropNotify j c k) h (by simpa using hlt) (fun _ => rfl) (fun _ => rfl) (fun _ => rfl) (fun _ => rfl) hold hjb rfl rfl rfl rfl
       exact JobInv.congr h1 (goto_congr _ _ rfl) (by rw [jobs_goto', jobs_goto']) (by rw [qs_goto', qs_goto'])
   · simp only [Option.some.injEq, Prod.mk.injEq] at hs; obtain ⟨rfl, _⟩ := hs
-    exact JobInv.retire_setJob h (by simpa using hlt) (fun _ => rfl) (fun _ => rfl) (fun _ => rfl) hold hjb rfl rfl (ctxReady_running hwk)
+    exact JobInv.retire_setJob h (by simpa using hlt) (fun _ => rfl) (fun _ => rfl) (fun _ => rfl) (fun _ => rfl) hold hjb rfl rfl rfl (ctxReady_running hwk)
 
 theorem j_jobDropNotify {s s' : State} {a : Nat} {o : Obs} (hw : WfInv s) (h : JobInv s) (act : Act) (ha : s.acts[a]? = some act) (hc : act.child = none)
     (j : Nat) (c : Ctx) (k : Pc) (hpc : act.pc = .jobDropNotify j c k) (hs : stepAct s a = some (s', o)) : JobInv s' := by
@@ -178,7 +183,7 @@ theorem j_jobDropNotify {s s' : State} {a : Nat} {o : Obs} (hw : WfInv s) (h : J
   repeat' split at hs
   all_goals (try (simp at hs; done))
   all_goals (simp only [Option.some.injEq, Prod.mk.injEq] at hs; obtain ⟨rfl, _⟩ := hs)
-  all_goals (refine JobInv.frame h (fun b => by simp) (fun i => by simp) (fun i => by simp) ?_)
+  all_goals (refine JobInv.frame h (fun b => by simp) (fun i => by simp) (fun i => by simp) (fun _ hi => Or.inl (by first | exact hi | simpa using hi)) ?_)
   all_goals (rw [hpca, hpc, ctxReady_running hwk]; rfl)
 
 theorem j_siIdle {s s' : State} {a : Nat} {o : Obs} (h : JobInv s) (act : Act) (ha : s.acts[a]? = some act) (hc : act.child = none)
@@ -192,7 +197,7 @@ theorem j_siIdle {s s' : State} {a : Nat} {o : Obs} (h : JobInv s) (act : Act) (
   · simp at hs
   next jb hjb =>
   simp only [Option.some.injEq, Prod.mk.injEq] at hs; obtain ⟨rfl, _⟩ := hs
-  exact JobInv.retire_setJob (v := { jb with ended := true, ph := .done }) h (by simpa using hlt) (fun b => by simp) (fun i => by simp) (fun i => by simp) hold hjb rfl rfl rfl
+  exact JobInv.retire_setJob (v := { jb with ended := true, ph := .done }) h (by simpa using hlt) (fun b => by simp) (fun i => by simp) (fun i => by simp) (fun i => by simp) hold hjb rfl rfl rfl rfl
 
 
 theorem qjobs_setQ_state {s : State} {q : Nat} {v : JobQ} (hq : s.qs[q]? = some v) (st : QState) (w : List Nat) (i : Nat) :
@@ -212,15 +217,15 @@ theorem j_rjPending {s s' : State} {a : Nat} {o : Obs} (h : JobInv s) (act : Act
   next v hv =>
   split at hs
   · simp only [Option.some.injEq, Prod.mk.injEq] at hs; obtain ⟨rfl, _⟩ := hs
-    exact JobInv.frame h (fun b => by simp) (fun i => by simp) (fun i => qjobs_setQ_state hv _ _ i) (by rw [hold]; rfl)
+    exact JobInv.frame h (fun b => by simp) (fun i => by simp) (fun i => qjobs_setQ_state hv _ _ i) (fun _ hi => Or.inl (by first | exact hi | simpa using hi)) (by rw [hold]; rfl)
   · split at hs
     · simp only [Option.some.injEq, Prod.mk.injEq] at hs; obtain ⟨rfl, _⟩ := hs
-      exact JobInv.frame h (fun b => by simp) (fun i => by simp) (fun i => qjobs_setQ_state hv _ _ i) (by rw [hold]; rfl)
+      exact JobInv.frame h (fun b => by simp) (fun i => by simp) (fun i => qjobs_setQ_state hv _ _ i) (fun _ hi => Or.inl (by first | exact hi | simpa using hi)) (by rw [hold]; rfl)
     · have hjb' : (s.setQ q { v with state := (runOnePending v.state).1 }).jobs[j]? = some jb := hjb
       simp only [hjb'] at hs
       simp only [Option.some.injEq, Prod.mk.injEq] at hs; obtain ⟨rfl, _⟩ := hs
       exact JobInv.retire_setJob (v := { jb with ph := .done, ended := true }) h (by simpa using hlt) (fun b => by simp) (fun i => rfl)
-        (fun i => by rw [qjobs_setJob]; exact qjobs_setQ_state hv _ _ i) hold hjb rfl rfl rfl
+        (fun i => by rw [qjobs_setJob]; exact qjobs_setQ_state hv _ _ i) (fun i => rfl) hold hjb rfl rfl rfl rfl
 
 theorem j_rjParkCheck {s s' : State} {a : Nat} {o : Obs} (h : JobInv s) (act : Act) (ha : s.acts[a]? = some act) (hc : act.child = none)
     (q j : Nat) (k : Pc) (hpc : act.pc = .rjParkCheck q j k) (hs : stepAct s a = some (s', o)) : JobInv s' := by
@@ -232,11 +237,11 @@ theorem j_rjParkCheck {s s' : State} {a : Nat} {o : Obs} (h : JobInv s) (act : A
   simp only [ha, hc, hpc, Option.isSome_none, Bool.false_eq_true, ↓reduceIte, hjb] at hs
   split at hs
   · simp only [Option.some.injEq, Prod.mk.injEq] at hs; obtain ⟨rfl, _⟩ := hs
-    exact JobInv.frame h (fun b => rfl) (fun i => rfl) (fun i => rfl) (by rw [hold]; rfl)
+    exact JobInv.frame h (fun b => rfl) (fun i => rfl) (fun i => rfl) (fun _ hi => Or.inl (by first | exact hi | simpa using hi)) (by rw [hold]; rfl)
   · simp only [Option.some.injEq, Prod.mk.injEq] at hs; obtain ⟨rfl, _⟩ := hs
-    exact JobInv.frame h (fun b => rfl) (fun i => rfl) (fun i => rfl) (by rw [hold]; rfl)
+    exact JobInv.frame h (fun b => rfl) (fun i => rfl) (fun i => rfl) (fun _ hi => Or.inl (by first | exact hi | simpa using hi)) (by rw [hold]; rfl)
   · simp only [Option.some.injEq, Prod.mk.injEq] at hs; obtain ⟨rfl, _⟩ := hs
-    exact JobInv.retire_setJob (v := { jb with ph := .done, ended := true }) h (by simpa using hlt) (fun b => rfl) (fun i => rfl) (fun i => rfl) hold hjb rfl rfl rfl
+    exact JobInv.retire_setJob (v := { jb with ph := .done, ended := true }) h (by simpa using hlt) (fun b => rfl) (fun i => rfl) (fun i => rfl) (fun i => rfl) hold hjb rfl rfl rfl rfl
 
 
 theorem jobPQ_of_append {Y s : State} {nj : Job} (hJ : Y.jobs = s.jobs ++ [nj]) (i : Nat) :
@@ -262,15 +267,19 @@ theorem j_syDecide {s s' : State} {a : Nat} {o : Obs} (h : JobInv s) (act : Act)
   next v hv =>
   split at hs
   · simp only [Option.some.injEq, Prod.mk.injEq] at hs; obtain ⟨rfl, _⟩ := hs
-    refine JobInv.newHeld (n := s.jobs.length) (q := q) h (by simpa using hlt) (fun c => rfl) hidle (jobPQ_fresh s) ?_ ?_ (by simp [Pc.runningQ])
+    refine JobInv.newHeld (n := s.jobs.length) (q := q) h (by simpa using hlt) (fun c => rfl) hidle (jobPQ_fresh s) ?_ ?_ ?_ ?_ (by simp [Pc.runningQ])
+    · rw [qjobs_of hv]
+      have he : v.jobs.isEmpty = true := by first | exact ((syncDecide_immediate_iff _ _).mp ‹_›).2 | exact ((trySync_immediate_iff _ _).mp ‹_›).2
+      simpa using he
     · intro i; rw [jobPQ_setHolder]; exact jobPQ_of_append (nj := ⟨q, .immediate a b, .held a, true, false, none⟩) (by rfl) i
     · intro i; exact qjobs_setQ_state hv _ _ i
+    · intro i hi; rw [jobOpen_setHolder, jobOpen_of_append (s := s) (nj := ⟨q, .immediate a b, .held a, true, false, none⟩) (by rfl)]; simp [hi]
   · split at hs
     · simp only [Option.some.injEq, Prod.mk.injEq] at hs; obtain ⟨rfl, _⟩ := hs
-      exact JobInv.frame h (fun c => rfl) (fun i => rfl) (fun i => qjobs_setQ_state hv _ _ i) (by rw [hidle]; rfl)
+      exact JobInv.frame h (fun c => rfl) (fun i => rfl) (fun i => qjobs_setQ_state hv _ _ i) (fun _ hi => Or.inl (by first | exact hi | simpa using hi)) (by rw [hidle]; rfl)
     · split at hs <;>
       · simp only [Option.some.injEq, Prod.mk.injEq] at hs; obtain ⟨rfl, _⟩ := hs
-        exact JobInv.frame h (fun c => rfl) (fun i => rfl) (fun i => qjobs_setQ_state hv _ _ i) (by rw [hidle]; rfl)
+        exact JobInv.frame h (fun c => rfl) (fun i => rfl) (fun i => qjobs_setQ_state hv _ _ i) (fun _ hi => Or.inl (by first | exact hi | simpa using hi)) (by rw [hidle]; rfl)
 
 theorem j_tsDecide {s s' : State} {a : Nat} {o : Obs} (h : JobInv s) (act : Act) (ha : s.acts[a]? = some act) (hc : act.child = none)
     (q : Nat) (b : Body) (hpc : act.pc = .tsDecide q b) (hs : stepAct s a = some (s', o)) : JobInv s' := by
@@ -284,14 +293,18 @@ theorem j_tsDecide {s s' : State} {a : Nat} {o : Obs} (h : JobInv s) (act : Act)
   next v hv =>
   split at hs
   · simp only [Option.some.injEq, Prod.mk.injEq] at hs; obtain ⟨rfl, _⟩ := hs
-    refine JobInv.newHeld (n := s.jobs.length) (q := q) h (by simpa using hlt) (fun c => rfl) hidle (jobPQ_fresh s) ?_ ?_ (by simp [Pc.runningQ])
+    refine JobInv.newHeld (n := s.jobs.length) (q := q) h (by simpa using hlt) (fun c => rfl) hidle (jobPQ_fresh s) ?_ ?_ ?_ ?_ (by simp [Pc.runningQ])
+    · rw [qjobs_of hv]
+      have he : v.jobs.isEmpty = true := by first | exact ((syncDecide_immediate_iff _ _).mp ‹_›).2 | exact ((trySync_immediate_iff _ _).mp ‹_›).2
+      simpa using he
     · intro i; rw [jobPQ_setHolder]; exact jobPQ_of_append (nj := ⟨q, .immediate a b, .held a, true, false, none⟩) (by rfl) i
     · intro i; exact qjobs_setQ_state hv _ _ i
+    · intro i hi; rw [jobOpen_setHolder, jobOpen_of_append (s := s) (nj := ⟨q, .immediate a b, .held a, true, false, none⟩) (by rfl)]; simp [hi]
   · split at hs
     · simp only [Option.some.injEq, Prod.mk.injEq] at hs; obtain ⟨rfl, _⟩ := hs
-      exact JobInv.frame_setAct h (fun c => rfl) (fun i => rfl) (fun i => qjobs_setQ_state hv _ _ i) (by rw [hidle]; rfl)
+      exact JobInv.frame_setAct h (fun c => rfl) (fun i => rfl) (fun i => qjobs_setQ_state hv _ _ i) (fun _ hi => Or.inl (by first | exact hi | simpa using hi)) (by rw [hidle]; rfl)
     · simp only [Option.some.injEq, Prod.mk.injEq] at hs; obtain ⟨rfl, _⟩ := hs
-      exact JobInv.frame h (fun c => rfl) (fun i => rfl) (fun i => qjobs_setQ_state hv _ _ i) (by rw [hidle]; rfl)
+      exact JobInv.frame h (fun c => rfl) (fun i => rfl) (fun i => qjobs_setQ_state hv _ _ i) (fun _ hi => Or.inl (by first | exact hi | simpa using hi)) (by rw [hidle]; rfl)
 
 
 /-- a new job is appended to the job table and to the back of queue `q` -/
@@ -299,8 +312,9 @@ theorem JobInv.push_new {s X : State} {a q : Nat} {v : JobQ} {pc' : Pc} (h : Job
     (hpc : ∀ c, X.pcAt c = s.pcAt c)
     (hj : ∀ i, X.jobPQ i = if i = s.jobs.length then some (.queued, q) else s.jobPQ i)
     (hq : ∀ i, X.qjobs i = if i = q then some (v.jobs ++ [s.jobs.length]) else s.qjobs i)
+    (ho : ∀ i, X.jobOpen i = s.jobOpen i)
     (hrun : pc'.runningQ = (s.pcAt a).runningQ) : JobInv (X.goto a pc') :=
-  JobInv.newQueued h hpc (jobPQ_fresh s) (qjobs_of hv) hj hq hrun
+  JobInv.newQueued h hpc (jobPQ_fresh s) (qjobs_of hv) hj hq (fun i => by rw [ho]; by_cases e : i = s.jobs.length <;> simp [e, jobOpen_fresh]) hrun
 
 theorem j_dsPush {s s' : State} {a : Nat} {o : Obs} (h : JobInv s) (act : Act) (ha : s.acts[a]? = some act) (hc : act.child = none)
     (q : Nat) (kind : JobKind) (hpc : act.pc = .dsPush q kind) (hs : stepAct s a = some (s', o)) : JobInv s' := by
@@ -314,10 +328,11 @@ theorem j_dsPush {s s' : State} {a : Nat} {o : Obs} (h : JobInv s) (act : Act) (
   have hv' : (s.newJob q kind).1.qs[q]? = some v := hv
   repeat' split at hs
   all_goals (simp only [Option.some.injEq, Prod.mk.injEq] at hs; obtain ⟨rfl, _⟩ := hs)
-  all_goals (refine JobInv.push_new h hv (fun c => rfl) ?_ ?_ (by rw [hidle]; rfl))
+  all_goals (refine JobInv.push_new h hv (fun c => rfl) ?_ ?_ ?_ (by rw [hidle]; rfl))
   all_goals (first
     | (intro i; rw [jobPQ_setQ]; exact jobPQ_newJob s q kind i)
-    | (intro i; rw [qjobs_setQ_of hv']; simp))
+    | (intro i; rw [qjobs_setQ_of hv']; simp; done)
+    | (intro i; simp))
 
 theorem j_sdPush {s s' : State} {a : Nat} {o : Obs} (hh : HolderInv s) (h : JobInv s) (act : Act) (ha : s.acts[a]? = some act) (hc : act.child = none)
     (q : Nat) (b : Body) (hpc : act.pc = .sdPush q b) (hs : stepAct s a = some (s', o)) : JobInv s' := by
@@ -333,13 +348,14 @@ theorem j_sdPush {s s' : State} {a : Nat} {o : Obs} (hh : HolderInv s) (h : JobI
     have := (List.getElem?_eq_some_iff.mp hho).1; rw [hh.len] at this; exact this
   obtain ⟨v, hv⟩ : ∃ v, s.qs[q]? = some v := ⟨s.qs[q], List.getElem?_eq_getElem hqlt⟩
   have hv' : (s.newJob q (.erasedDrain a b)).1.qs[q]? = some v := hv
-  refine JobInv.push_new h hv (fun c => by simp) ?_ ?_ (by rw [hidle]; rfl)
+  refine JobInv.push_new h hv (fun c => by simp) ?_ ?_ ?_ (by rw [hidle]; rfl)
   · intro i; rw [jobPQ_pushBack]; exact jobPQ_newJob s q _ i
   · intro i
     unfold State.pushBack
     rw [hv']
     simp only [newJob_snd]
     rw [qjobs_setQ_of hv']; simp
+  · intro i; simp
 
 theorem j_sbPush {s s' : State} {a : Nat} {o : Obs} (h : JobInv s) (act : Act) (ha : s.acts[a]? = some act) (hc : act.child = none)
     (q : Nat) (b : Body) (hpc : act.pc = .sbPush q b) (hs : stepAct s a = some (s', o)) : JobInv s' := by
@@ -353,15 +369,16 @@ theorem j_sbPush {s s' : State} {a : Nat} {o : Obs} (h : JobInv s) (act : Act) (
   have hv' : (s.newJob q (.erasedBg a b)).1.qs[q]? = some v := hv
   repeat' split at hs
   all_goals (simp only [Option.some.injEq, Prod.mk.injEq] at hs; obtain ⟨rfl, _⟩ := hs)
-  all_goals (refine JobInv.push_new h hv (fun c => rfl) ?_ ?_ (by rw [hidle]; rfl))
+  all_goals (refine JobInv.push_new h hv (fun c => rfl) ?_ ?_ ?_ (by rw [hidle]; rfl))
   all_goals (first
     | (intro i; rw [jobPQ_setQ]; exact jobPQ_newJob s q _ i)
-    | (intro i; rw [qjobs_setQ_of hv']; simp))
+    | (intro i; rw [qjobs_setQ_of hv']; simp; done)
+    | (intro i; simp))
 
 
 theorem JobInv.append_act {s X : State} {n : Act} (h : JobInv s) (hA : X.acts = s.acts ++ [n]) (hn : n.pc.runningQ = none)
     (hJ : X.jobs = s.jobs) (hQ : X.qs = s.qs) : JobInv X := by
-  refine JobInv.of_eq h ?_ (fun i => by simp only [State.jobPQ, hJ]) (fun i => by simp only [State.qjobs, hQ])
+  refine JobInv.of_eq h ?_ (fun i => by simp only [State.jobPQ, hJ]) (fun i => by simp only [State.qjobs, hQ]) (fun i => by simp only [State.jobOpen, hJ])
   intro b
   simp only [State.pcAt, hA]
   by_cases hlt : b < s.acts.length
@@ -375,7 +392,7 @@ theorem JobInv.append_act {s X : State} {n : Act} (h : JobInv s) (hA : X.acts = 
 theorem JobInv.spawn_goto {s X : State} {a : Nat} {n : Act} {pc' : Pc} (h : JobInv s) (hA : X.acts = s.acts ++ [n]) (hn : n.pc.runningQ = none)
     (hJ : X.jobs = s.jobs) (hQ : X.qs = s.qs) (hlt : a < s.acts.length) (hrun : pc'.runningQ = (s.pcAt a).runningQ) : JobInv (X.goto a pc') := by
   have hX : JobInv X := JobInv.append_act h hA hn hJ hQ
-  refine JobInv.frame hX (fun _ => rfl) (fun _ => rfl) (fun _ => rfl) ?_
+  refine JobInv.frame hX (fun _ => rfl) (fun _ => rfl) (fun _ => rfl) (fun _ hi => Or.inl hi) ?_
   rw [hrun]
   simp only [State.pcAt, hA, List.getElem?_append_left hlt]
 
@@ -391,7 +408,7 @@ theorem j_stSpawn {s s' : State} {a : Nat} {o : Obs} (h : JobInv s) (act : Act) 
     · simp only [Option.some.injEq, Prod.mk.injEq] at hs; obtain ⟨rfl, _⟩ := hs
       exact JobInv.spawn_goto h rfl (by rfl) rfl rfl hlt (by rw [hpca, hpc]; rfl)
     · simp only [Option.some.injEq, Prod.mk.injEq] at hs; obtain ⟨rfl, _⟩ := hs
-      exact JobInv.frame h (fun c => rfl) (fun i => rfl) (fun i => rfl) (by rw [hpca, hpc]; rfl)
+      exact JobInv.frame h (fun c => rfl) (fun i => rfl) (fun i => rfl) (fun _ hi => Or.inl (by first | exact hi | simpa using hi)) (by rw [hpca, hpc]; rfl)
 
 theorem j_sbPrune {s s' : State} {a : Nat} {o : Obs} (h : JobInv s) (act : Act) (ha : s.acts[a]? = some act) (hc : act.child = none)
     (q : Nat) (hpc : act.pc = .sbPrune q) (hs : stepAct s a = some (s', o)) : JobInv s' := by
@@ -402,8 +419,8 @@ theorem j_sbPrune {s s' : State} {a : Nat} {o : Obs} (h : JobInv s) (act : Act) 
   · simp at hs
   next v hv =>
   simp only [Option.some.injEq, Prod.mk.injEq] at hs; obtain ⟨rfl, _⟩ := hs
-  have h1 : JobInv (s.goto a Pc.ret) := JobInv.frame h (fun c => rfl) (fun i => rfl) (fun i => rfl) (by rw [hpca, hpc]; rfl)
-  refine JobInv.of_eq h1 (fun b => rfl) (fun i => rfl) ?_
+  have h1 : JobInv (s.goto a Pc.ret) := JobInv.frame h (fun c => rfl) (fun i => rfl) (fun i => rfl) (fun _ hi => Or.inl (by first | exact hi | simpa using hi)) (by rw [hpca, hpc]; rfl)
+  refine JobInv.of_eq h1 (fun b => rfl) (fun i => rfl) ?_ (fun i => rfl)
   intro i
   have hv' : (s.goto a Pc.ret).qs[q]? = some v := by rw [qs_goto']; exact hv
   exact qjobs_setQ_state hv' _ _ i
@@ -417,7 +434,7 @@ theorem j_ptPop {s s' : State} {a : Nat} {o : Obs} (h : JobInv s) (act : Act) (h
   repeat' split at hs
   all_goals (try (simp at hs; done))
   all_goals (simp only [Option.some.injEq, Prod.mk.injEq] at hs; obtain ⟨rfl, _⟩ := hs)
-  all_goals (refine JobInv.frame h (fun c => rfl) (fun i => rfl) ?_ (by rw [hidle]; rfl))
+  all_goals (refine JobInv.frame h (fun c => rfl) (fun i => rfl) ?_ (fun _ hi => Or.inl (by first | exact hi | simpa using hi)) (by rw [hidle]; rfl))
   all_goals (first | (intro i; rfl) | (intro i; rw [qjobs_setHolder]; exact qjobs_setQ_state (s := { s with schedule := _ }) (by assumption) _ _ i) | (intro i; exact qjobs_setQ_state (s := { s with schedule := _ }) (by assumption) _ _ i))
 
 end Desync
